@@ -94,6 +94,19 @@ Theorem C13_cyclic_deadlock : exists prog progs sched,
 Proof. exact conc_cyclic_deadlock. Qed.
 Print Assumptions C13_cyclic_deadlock.
 
+(** the class of changes "serve a cached error of some kinds to a load that did not compute it" (the seeded change
+    missed_C13b: the missing-object kinds) breaks the property for every error kind of the harness, in the interleaving the seed's
+    demonstration forces: B arrives while A computes, waits, and receives A's error *)
+Theorem C13_serving_cached_errors_refuted : forall k : N, In k error_kinds ->
+  let serve := fun e : N => e =? k in
+  let prog := kind_prog k in
+  let c := mkCcfg true true true in
+  let g := fold_left (step_gen c prog serve) [0; 0; 1; 1; 0; 0; 0; 1; 1; 1; 1; 1]%nat (ginit [[(1, 3)]; [(2, 3)]]) in
+  acyclic prog (fun _ => O) /\ finished g 1%nat = true /\
+  results (threads g 1%nat) = [Err k] /\ fst (get no_cache prog 2 [] 2 3 init) = Ok 7.
+Proof. exact conc_serving_cached_errors_refuted. Qed.
+Print Assumptions C13_serving_cached_errors_refuted.
+
 Theorem C13_chain_table : cache_chain_per_thread = true.
 Proof. exact chain_table. Qed.
 Print Assumptions C13_chain_table.
